@@ -298,7 +298,7 @@ func init() {
 	register("C09", func(r *engine.Run) {
 		full := thorough(r)
 		pfs := c09PropFilters(full)
-		drs := []carddav.AddressDataRequest{{}, {AllProp: true}, {Props: []string{"FN"}}, {Props: []string{"FN", "X-é"}}}
+		drs := []carddav.AddressDataRequest{{}, {AllProp: true}, {Props: []string{"FN"}}, {Props: []string{"FN", "X-é"}}, {AllProp: true, Props: []string{"FN"}}}
 		limits := []int{-1, 0, 1, 7}
 		if strconv.IntSize == 64 {
 			big := int64(1) << 32
@@ -310,12 +310,12 @@ func init() {
 			acases = append(acases, c09ACase{Kind: "query", Query: &carddav.AddressBookQuery{FilterTest: t}, Path: "/u/c/k1/"})
 			for _, pf := range pfs {
 				k++
-				acases = append(acases, c09ACase{Kind: "query", Query: &carddav.AddressBookQuery{FilterTest: t, PropFilters: []carddav.PropFilter{pf}, DataRequest: drs[k%4], Limit: limits[(k/4)%len(limits)]}, Path: "/u/c/k1/"})
+				acases = append(acases, c09ACase{Kind: "query", Query: &carddav.AddressBookQuery{FilterTest: t, PropFilters: []carddav.PropFilter{pf}, DataRequest: drs[k%len(drs)], Limit: limits[(k/4)%len(limits)]}, Path: "/u/c/k1/"})
 			}
 			for i := 0; i < len(pfs); i += 11 {
 				for j := 3; j < len(pfs); j += 29 {
 					k++
-					acases = append(acases, c09ACase{Kind: "query", Query: &carddav.AddressBookQuery{FilterTest: t, PropFilters: []carddav.PropFilter{pfs[i], pfs[j]}, DataRequest: drs[k%4], Limit: limits[(k/4)%len(limits)]}, Path: "/u/c/k1/"})
+					acases = append(acases, c09ACase{Kind: "query", Query: &carddav.AddressBookQuery{FilterTest: t, PropFilters: []carddav.PropFilter{pfs[i], pfs[j]}, DataRequest: drs[k%len(drs)], Limit: limits[(k/4)%len(limits)]}, Path: "/u/c/k1/"})
 				}
 			}
 		}
